@@ -3,6 +3,7 @@ Helper lemmas for C17 (see Props/C17.lean for the property theorems).
 -/
 import CobaVerif.Model.C17
 import CobaVerif.Generated.C17Ops
+import CobaVerif.Generated.C17Sorts
 import Mathlib.Tactic.Linarith
 import Mathlib.Algebra.Order.Field.Rat
 import Mathlib.Data.List.Sort
@@ -6556,5 +6557,53 @@ theorem view_of_view_observables' (t : Table) (N : Nat) (hok : t.OK N) (hne : t.
   have hk : k < select.length := by simpa using hk2
   rw [rowAt_view t N hok sel' select hidx hlt k hk]
   simp [List.getD, List.getElem?_eq_getElem hk]
+
+
+/-! ## Phase 6: the sort calls of `class Table`, tied to the source
+
+`Generated/C17Sorts.lean` is rewritten from the coba source on every run (`harness/props/c17.py: pre_build`,
+Python `ast`): every `sorted(...)` call and every in-place `.sort(...)` call inside `class Table`, in source
+order, with the method it stands in, what it sorts, its `key=` and whether anything else (`reverse=`, further
+arguments) is given. The model sorts at exactly these places, ascending, with exactly these keys. -/
+
+/-- the model's sorts, in source order: `insertCols` (`sorted(new_cols)`: `sortNames`), `sortedFrom`
+(`_in_index_order`), `sortSegments` (`index`), `sortDedupNat` (`where`), `compareBisect` `in` and `!in` -/
+def sortSitesModel : List (String × String × String × Bool) :=
+  [ ("insert", "new_cols", "none", false),
+    ("_in_index_order", "last", "none", false),
+    ("index", "indexes[lo:hi]", "cell of column col", false),
+    ("where", "set(selection)", "none", false),
+    ("_compare", "arg", "none", false),
+    ("_compare", "arg", "none", false) ]
+
+/-- the source's sort calls are the model's -/
+theorem sort_sites_eq_source' :
+    Coba.Generated.C17.sortSitesExtracted = true ∧
+    Coba.Generated.C17.sortSites = sortSitesModel := by decide
+
+/-- what the model does at the sites the table lists: `_in_index_order` sorts the new row numbers by the cell of
+the last index column; `index` sorts each segment of the permutation by the cell of the current column and puts
+it back in place; `where` with several keywords is `sortDedupNat`; `in` / `!in` on the bisect path sort the
+probes — each with the ascending `pySorted` / `pySortedBy` (= the comparison sort with Python's raising `<`,
+`sorted_comparison_sort_eq`), none reversed -/
+theorem sort_sites_model_calls' (cfg : Cfg) (s : Seq) (lo hi : Nat) (vs : List Cell) (c : List Cell)
+    (k : Nat → Cell) (rest : List (Nat × Nat)) (perm : List Nat) :
+    (sortedFrom c lo hi = match pySortedBy (cellAt c) (List.range' lo (hi - lo)) with
+        | .error _ => .cannot
+        | .ok p => if p = List.range' lo (hi - lo) then .le else .gt) ∧
+    (sortSegments k ((lo, hi) :: rest) perm =
+        (pySortedBy k ((perm.drop lo).take (hi - lo))).bind
+          (fun seg => sortSegments k rest (perm.take lo ++ seg ++ perm.drop hi))) ∧
+    (compareBisect cfg s lo hi .isin (.coll vs) =
+        (pySorted vs).bind (fun vs0 =>
+          (if cfg.dedupIn then dedupAdj vs0 else vs0).mapM (fun v => do
+            let l ← myBisectLeft cfg s v lo hi; let h ← myBisectRight cfg s v lo hi; pure (l, h)))) ∧
+    (compareBisect cfg s lo hi .notin (.coll vs) =
+        (pySorted vs).bind (fun vs' =>
+          (notinPairs cfg vs').mapM (fun (p : Option Cell × Option Cell) => do
+            let l ← match p.1 with | Option.none => pure lo | some v0 => myBisectRight cfg s v0 lo hi
+            let h ← match p.2 with | Option.none => pure hi | some v1 => myBisectLeft cfg s v1 lo hi
+            pure (l, h)))) :=
+  ⟨rfl, rfl, rfl, rfl⟩
 
 end Coba.C17
